@@ -95,6 +95,83 @@ impl<T: RealNumber, D: Distance<Vec<T>, T>> DBSCAN<T, D> {
         }
     }
 
+    // the same for every query, every possible answer of the search and every prefix length m (called where these are not known yet)
+    proof fn lemma_tally_q(&self)
+        ensures
+            forall|q: Seq<T>, v: Seq<(usize, T, &Vec<T>)>, c: int, m: int|
+                #![trigger self.knn_algorithm.radius_answer(q, self.eps, v), count_list(idxs(v), self.votes_in(c), m)]
+                self.knn_algorithm.radius_answer(q, self.eps, v) && m == v.len() ==> count_list(idxs(v), self.votes_in(c), m) == self.votes(q, c),
+    {
+        assert forall|q: Seq<T>, v: Seq<(usize, T, &Vec<T>)>, c: int, m: int|
+            #![trigger self.knn_algorithm.radius_answer(q, self.eps, v), count_list(idxs(v), self.votes_in(c), m)]
+            self.knn_algorithm.radius_answer(q, self.eps, v) && m == v.len() implies count_list(idxs(v), self.votes_in(c), m) == self.votes(q, c) by {
+            self.lemma_tally_is_votes(q, v, c);
+        }
+    }
+
+    // an answer lists every training point at most once: it is not longer than the training set
+    proof fn lemma_answer_len_q(&self)
+        ensures
+            forall|q: Seq<T>, v: Seq<(usize, T, &Vec<T>)>| #[trigger] self.knn_algorithm.radius_answer(q, self.eps, v) ==> v.len() <= usize::MAX,
+    {
+        assert forall|q: Seq<T>, v: Seq<(usize, T, &Vec<T>)>| #[trigger] self.knn_algorithm.radius_answer(q, self.eps, v) implies v.len() <= usize::MAX by {
+            let idx = idxs(v);
+            let n = self.knn_algorithm.npoints();
+            assert forall|j: int| 0 <= j < n && #[trigger] self.near(q)(j) implies exists|a: int| 0 <= a < idx.len() && idx[a] == j by {
+                assert(self.knn_algorithm.within(q, self.eps, j));
+                let a = choose|a: int| 0 <= a < v.len() && (#[trigger] v[a]).0 == j;
+                assert(idx[a] == j);
+            }
+            assert forall|a: int| 0 <= a < idx.len() implies 0 <= #[trigger] idx[a] < n && self.near(q)(idx[a]) by {
+                assert(0 <= v[a].0 < n);
+            }
+            assert forall|a: int, b: int| 0 <= a < b < idx.len() implies idx[a] != idx[b] by {
+                assert(v[a].0 != v[b].0);
+            }
+            lemma_enum_len(idx, self.near(q), n);
+            lemma_count_range_bounds(self.near(q), n);
+            assert(n == self.knn_algorithm.data.len());
+        }
+    }
+
+    // slot c0 is the first one with a maximal number of votes (what which_max returns for the tally)
+    spec fn first_max_slot(&self, q: Seq<T>, c0: int) -> bool {
+        &&& 0 <= c0 <= self.k()
+        &&& forall|c: int| 0 <= c <= self.k() ==> #[trigger] self.votes(q, c) <= self.votes(q, c0)
+        &&& forall|c: int| 0 <= c < c0 ==> #[trigger] self.votes(q, c) < self.votes(q, c0)
+    }
+    // a cluster slot w that is a first maximum and has at least one vote is a plurality cluster; then there are neighbours and noise does
+    // not dominate (for every query; instantiated for the w whose label T::from(w) is written)
+    spec fn winner_ok(&self, q: Seq<T>, w: usize) -> bool {
+        self.first_max_slot(q, w as int) && w != self.k() && self.votes(q, w as int) > 0
+            ==> self.has_neighbour(q) && !self.noise_dominates(q) && self.is_plurality_label(q, T::from_spec::<usize>(w))
+    }
+    proof fn lemma_winner_q(&self)
+        requires self.wf(),
+        ensures forall|q: Seq<T>, w: usize| #![trigger self.votes(q, w as int), T::from_spec::<usize>(w)] self.winner_ok(q, w),
+    {
+        assert forall|q: Seq<T>, w: usize| #![trigger self.winner_ok(q, w)] self.winner_ok(q, w) by {
+            if self.first_max_slot(q, w as int) && w != self.k() && self.votes(q, w as int) > 0 {
+                self.lemma_neighbour_iff_vote(q);
+                assert(self.votes(q, w as int) >= self.votes(q, self.k()));
+                assert(self.plurality_cluster(q, w as int));
+                assert((w as int) as usize == w);
+            }
+        }
+    }
+    // a query with a training point within eps: some slot received a vote
+    proof fn lemma_some_vote_q(&self)
+        requires self.wf(),
+        ensures forall|q: Seq<T>| #[trigger] self.has_neighbour(q) ==> exists|c: int| 0 <= c <= self.k() && self.votes(q, c) > 0,
+    {
+        assert forall|q: Seq<T>| #[trigger] self.has_neighbour(q) implies exists|c: int| 0 <= c <= self.k() && self.votes(q, c) > 0 by {
+            self.lemma_neighbour_iff_vote(q);
+        }
+    }
+
+// loops are verified in the context of the code before them: an immutable local introduced in front of a loop (say `let eps = self.eps;`)
+// is then known inside the loop without being named in an invariant (a name that need not exist in /repo)
+#[verifier::loop_isolation(false)]
 //@extract src/cluster/dbscan.rs :: impl<T: RealNumber + Sum, D: Distance<Vec<T>, T>> DBSCAN<T, D> :: predict :: ret=r
 //@spec
         requires
@@ -127,51 +204,38 @@ impl<T: RealNumber, D: Distance<Vec<T>, T>> DBSCAN<T, D> {
                     ==> #[trigger] result.at(0, i2) == Self::noise(), //# predict-noise-dominates-is-noise
                 forall|i2: int| 0 <= i2 < i && self.has_neighbour(row_view(x, i2)) && !self.noise_dominates(row_view(x, i2))
                     ==> self.is_plurality_label(row_view(x, i2), #[trigger] result.at(0, i2)), //# predict-plurality-cluster
-//@before let mut label = vec!
-            let ghost q = row@;
-            let ghost v0 = neighbors@;
-            proof { assert(v0.len() == neighbors.len()); }
+//@loopbody 1
+            // what the votes for a query row (whatever list the search returns) say about its label
+            proof {
+                self.lemma_tally_q();
+                self.lemma_answer_len_q();
+                self.lemma_winner_q();
+                self.lemma_some_vote_q();
+            }
 //@loop 2
                 invariant
-                    self.wf(),
+                    self.wf(), i < n, n == x.nrows_spec(),
+                    row@ =~= row_view(x, i as int), //# inv-query-is-row-i
                     label@.len() == self.num_classes + 1,
-                    VERUS_ghost_iter.seq() == v0,
-                    v0.len() <= usize::MAX,
-                    self.knn_algorithm.radius_answer(q, self.eps, v0),
-                    forall|c: int| 0 <= c <= self.num_classes ==> #[trigger] label@[c] == count_list(idxs(v0), self.votes_in(c), VERUS_ghost_iter.index@ as int), //# inv-tally-counts-votes-of-consumed-neighbours
-//@before let yi = self.cluster_labels
-                let ghost a = VERUS_ghost_iter.index@ as int;
+                    VERUS_ghost_iter.seq().len() <= usize::MAX,
+                    self.knn_algorithm.radius_answer(row@, self.eps, VERUS_ghost_iter.seq()),
+                    forall|c: int| #![trigger label@[c]] #![trigger count_list(idxs(VERUS_ghost_iter.seq()), self.votes_in(c), VERUS_ghost_iter.index@ as int)]
+                        0 <= c <= self.num_classes ==> label@[c]
+                            == count_list(idxs(VERUS_ghost_iter.seq()), self.votes_in(c), VERUS_ghost_iter.index@ as int), //# inv-tally-counts-votes-of-consumed-neighbours
+                    // all neighbours consumed: the tally is the number of votes
+                    forall|c: int| #![trigger self.votes(row@, c)] #![trigger count_list(idxs(VERUS_ghost_iter.seq()), self.votes_in(c), VERUS_ghost_iter.index@ as int)]
+                        0 <= c <= self.num_classes && VERUS_ghost_iter.index@ == VERUS_ghost_iter.seq().len()
+                            ==> count_list(idxs(VERUS_ghost_iter.seq()), self.votes_in(c), VERUS_ghost_iter.index@ as int) == self.votes(row@, c),
+//@loopbody 2
                 proof {
+                    let a = VERUS_ghost_iter.index@ as int;
+                    let v0 = VERUS_ghost_iter.seq();
                     assert(neighbor == v0[a]);
                     assert(idxs(v0)[a] == neighbor.0);
                     assert forall|c: int| 0 <= c <= self.num_classes implies 0 <= #[trigger] count_list(idxs(v0), self.votes_in(c), a) <= a by {
                         lemma_count_list_bounds(idxs(v0), self.votes_in(c), a);
                     }
-                }
-//@before let class = which_max(&label);
-            proof {
-                assert forall|c: int| #![trigger label@[c]] #![trigger self.votes(q, c)] 0 <= c <= self.num_classes implies label@[c] == self.votes(q, c) by {
-                    self.lemma_tally_is_votes(q, v0, c);
-                }
-                self.lemma_neighbour_iff_vote(q);
-            }
-            let ghost res0 = result;
-//@after let class = which_max(&label);
-            proof {
-                if class != self.num_classes { assert(self.votes(q, class as int) >= self.votes(q, self.k())); }
-                if class != self.num_classes && self.has_neighbour(q) { assert(self.plurality_cluster(q, class as int)); }
-            }
-//@after result.set(0, i, ##1
-                proof {
-                    assert(q =~= row_view(x, i as int));
-                    assert(result.at(0, i as int) == T::from_spec::<usize>(class));
-                    if self.has_neighbour(q) { assert(self.plurality_cluster(row_view(x, i as int), class as int)); assert(self.is_plurality_label(row_view(x, i as int), result.at(0, i as int))); }
-                }
-//@after result.set(0, i, ##2
-                proof {
-                    assert(q =~= row_view(x, i as int));
-                    assert(result.at(0, i as int) == Self::noise());
-                    if self.has_neighbour(q) { assert(self.noise_dominates(row_view(x, i as int))); }
+                    self.lemma_tally_q();
                 }
 //@end
 }
